@@ -8,6 +8,7 @@ import (
 	"github.com/brewlin/net-protocol/protocol/network/arp"
 	"github.com/brewlin/net-protocol/protocol/network/ipv4"
 	"github.com/brewlin/net-protocol/protocol/network/ipv6"
+	"github.com/brewlin/net-protocol/protocol/transport/ping"
 	"github.com/brewlin/net-protocol/protocol/transport/tcp"
 	"github.com/brewlin/net-protocol/protocol/transport/udp"
 	"github.com/brewlin/net-protocol/stack"
@@ -30,6 +31,7 @@ type StackCfg struct {
 	SACK           *bool
 	CC             string // "", "reno", "cubic"
 	RcvBuf, SndBuf int    // defaults for new TCP endpoints (0 = stack default)
+	Ping           bool   // register the ping4 / ping6 transport protocols (ping sockets)
 }
 
 // NewStack builds a stack with one NIC (id 1) backed by tap and default routes.
@@ -38,7 +40,11 @@ func NewStack(tap *Tap, cfg StackCfg) *stack.Stack {
 	if cfg.ARP {
 		nets = append(nets, arp.ProtocolName)
 	}
-	s := stack.New(nets, []string{tcp.ProtocolName, udp.ProtocolName}, stack.Options{})
+	trans := []string{tcp.ProtocolName, udp.ProtocolName}
+	if cfg.Ping {
+		trans = append(trans, ping.ProtocolName4, ping.ProtocolName6)
+	}
+	s := stack.New(nets, trans, stack.Options{})
 	if err := s.CreateNIC(1, stack.RegisterLinkEndpoint(tap)); err != nil {
 		panic(fmt.Sprint("CreateNIC: ", err))
 	}
